@@ -131,6 +131,11 @@ func (n *Node) IsLeaf() bool { return n.Lhs == nil }
 func (n *Node) String() string { return n.str(true) }
 func (n *Node) str(top bool) string {
 	if n.IsLeaf() {
+		if isConstant(n.Op) {
+			if v, err := strconv.ParseInt(n.Op, 10, 32); err == nil {
+				return strconv.FormatInt(v, 10)
+			}
+		}
 		return n.Op
 	}
 	s := n.Lhs.str(false) + " " + n.Op + " " + n.Rhs.str(false)
@@ -391,7 +396,6 @@ func reconstruct(fl *ast.FuncLit) (string, error) {
 	type shape struct{ op, l, r string }
 	cur := map[string]int{}      // Go name -> current version
 	shapes := map[string]shape{} // versioned expression name -> its shape
-	tmps := map[string]*Node{}   // versioned name -> built expression
 	alias := map[string]string{} // versioned name -> versioned name it must Eq
 	var reqs []*Node
 	var pending string // name whose parseBinaryOp awaits its `if op != …`
@@ -423,9 +427,6 @@ func reconstruct(fl *ast.FuncLit) (string, error) {
 		}
 		if a, ok := alias[id]; ok {
 			return operand(a, depth+1)
-		}
-		if t, ok := tmps[id]; ok {
-			return t, nil
 		}
 		if sh, ok := shapes[id]; ok {
 			l, err := operand(sh.l, depth+1)
